@@ -240,7 +240,28 @@ func lpEncode(lp *spec.LpPacket) []byte {
 type tlField struct{ tOff, tLen, lOff, lLen, vLen int }
 
 // walkTLV collects the TL headers of a frame, descending into known containers.
-func walkTLV(b []byte, base int, out *[]tlField, depth int) {
+func walkTLV(b []byte, base int, out *[]tlField, depth int) { walkTLVIn(b, base, out, depth, false) }
+
+// parsesAsTLVs: the bytes are exactly a non-empty sequence of TLV blocks.
+func parsesAsTLVs(b []byte) bool {
+	if len(b) < 2 {
+		return false
+	}
+	for off := 0; off < len(b); {
+		_, tl, ok := readVar(b[off:])
+		if !ok {
+			return false
+		}
+		l, ll, ok := readVar(b[off+tl:])
+		if !ok || l > uint64(len(b)-off-tl-ll) {
+			return false
+		}
+		off += tl + ll + int(l)
+	}
+	return true
+}
+
+func walkTLVIn(b []byte, base int, out *[]tlField, depth int, inContent bool) {
 	containers := map[uint64]bool{0x64: true, 0x50: true, 0x05: true, 0x06: true, 0x07: true, 0x14: true, 0x16: true, 0x1c: true, 0x1e: true, 0x0320: true, 0x0334: true, 0x2c: true}
 	off := 0
 	for off < len(b) && depth < 8 {
@@ -258,8 +279,10 @@ func walkTLV(b []byte, base int, out *[]tlField, depth int) {
 		if l > uint64(len(b)-vs) {
 			return
 		}
-		if containers[t] {
-			walkTLV(b[vs:vs+int(l)], base+vs, out, depth+1)
+		if containers[t] || ((t == 0x15 || t == 0x24 || inContent) && parsesAsTLVs(b[vs:vs+int(l)])) {
+			// Content / ApplicationParameters often carry nested TLV structures (advertisements, prefix operation
+			// lists, state vectors, metadata): their fields are corrupted too
+			walkTLVIn(b[vs:vs+int(l)], base+vs, out, depth+1, inContent || t == 0x15 || t == 0x24)
 		}
 		off = vs + int(l)
 	}
@@ -393,19 +416,27 @@ func (w *rxWorld) buildFrame(o *RxOp) []byte {
 	default:
 		f = rxInterest(o.Seed)
 	}
+	return Mutate(f, o.Mut, o.At, o.Val)
+}
+
+// Mutate applies one structure-aware corruption to a frame (the fault kinds of the hostile link): "len"/"lenfix"
+// rewrite the length field of the at-th TLV (lenfix also patches the enclosing lengths), "trunc" cuts the frame,
+// "flip" xors a byte, "type" rewrites a type field, "insert" adds bytes, "fragfield"/"token" rewrite link-protocol
+// fields. Other values leave the frame as it is.
+func Mutate(f []byte, mut string, at int, val uint64) []byte {
 	f = append([]byte(nil), f...)
-	switch o.Mut {
+	switch mut {
 	case "len", "lenfix":
 		var fs []tlField
 		walkTLV(f, 0, &fs, 0)
 		if len(fs) == 0 {
 			return f
 		}
-		k := o.At % len(fs)
+		k := at % len(fs)
 		fl := fs[k]
-		nl := putVar(o.Val)
+		nl := putVar(val)
 		g := append(append(append([]byte(nil), f[:fl.lOff]...), nl...), f[fl.lOff+fl.lLen:]...)
-		if o.Mut == "lenfix" {
+		if mut == "lenfix" {
 			// patch the enclosing lengths so that only this TLV disagrees with its content
 			delta := len(nl) - fl.lLen
 			for j := k - 1; j >= 0; j-- {
@@ -418,47 +449,47 @@ func (w *rxWorld) buildFrame(o *RxOp) []byte {
 		return g
 	case "trunc":
 		if len(f) > 0 {
-			return f[:o.At%len(f)]
+			return f[:at%len(f)]
 		}
 	case "flip":
 		if len(f) > 0 {
-			f[o.At%len(f)] ^= byte(o.Val)
+			f[at%len(f)] ^= byte(val)
 		}
 	case "type":
 		var fs []tlField
 		walkTLV(f, 0, &fs, 0)
 		if len(fs) > 0 {
-			fl := fs[o.At%len(fs)]
+			fl := fs[at%len(fs)]
 			if fl.tLen == 1 {
-				f[fl.tOff] = byte(o.Val)
+				f[fl.tOff] = byte(val)
 			}
 		}
 	case "insert":
-		r := kit.NewRand(o.Val)
-		at := 0
+		r := kit.NewRand(val)
+		pos := 0
 		if len(f) > 0 {
-			at = o.At % len(f)
+			pos = at % len(f)
 		}
-		ins := r.Bytes(1 + int(o.Val%40))
-		return append(append(append([]byte(nil), f[:at]...), ins...), f[at:]...)
+		ins := r.Bytes(1 + int(val%40))
+		return append(append(append([]byte(nil), f[:pos]...), ins...), f[pos:]...)
 	case "fragfield":
 		p, _, err := spec.ReadPacket(enc.NewBufferReader(append([]byte(nil), f...)))
 		if err == nil && p.LpPacket != nil {
 			lp := p.LpPacket
-			switch o.At % 3 {
+			switch at % 3 {
 			case 0:
-				lp.FragIndex = utils.IdPtr(o.Val)
+				lp.FragIndex = utils.IdPtr(val)
 			case 1:
-				lp.FragCount = utils.IdPtr(o.Val)
+				lp.FragCount = utils.IdPtr(val)
 			case 2:
-				lp.Sequence = utils.IdPtr(o.Val)
+				lp.Sequence = utils.IdPtr(val)
 			}
 			return lpEncode(lp)
 		}
 	case "token":
 		p, _, err := spec.ReadPacket(enc.NewBufferReader(append([]byte(nil), f...)))
 		if err == nil && p.LpPacket != nil {
-			p.LpPacket.PitToken = []byte{byte(o.Val >> 8), byte(o.Val), 1, 2, 3, 4}
+			p.LpPacket.PitToken = []byte{byte(val >> 8), byte(val), 1, 2, 3, 4}
 			return lpEncode(p.LpPacket)
 		}
 	}
